@@ -84,6 +84,7 @@ result_t SimTransport::open() {
     uint8_t kinds[2] = {0, (uint8_t)(m_world->sc.unbounded ? K_REQ : K_DEV)};
     if (m_world->ex.choose(2, kinds) == 1) {
       m_world->note("OPEN fails");
+      m_world->devCount++;
       m_valid = false;
       return RESULT_ERR_NOTFOUND;
     }
@@ -284,7 +285,9 @@ result_t World::onWrite(const uint8_t* data, size_t len) {
   if (sc.faults && !frozen) {
     uint8_t kinds[2] = {0, (uint8_t)(sc.unbounded ? K_REQ : K_DEV)};
     if (ex.choose(2, kinds) == 1) {
+      devCount++;
       evIoError(true);
+      abortScript();  // the symbol never reached the bus: the addressed participant (if any) is out of the exchange
       return RESULT_ERR_DEVICE;
     }
   }
@@ -571,6 +574,7 @@ result_t World::onRead(unsigned int timeout) {
     if (d.k == D_END) {
       if (sc.drainAtEnd && drainLeft < 4 && h->m_state != bs_noSignal) {
         drainLeft++;
+        devCount++;
         vp::vclockAdvanceMs(2500);
         evTimeout(2500);
         return RESULT_ERR_TIMEOUT;
@@ -579,6 +583,7 @@ result_t World::onRead(unsigned int timeout) {
       return endTimeout();
     }
     if (d.k == D_PAUSE) {  // scripted silence: no choice here
+      devCount++;
       int ms = (int)timeout + lat + (*active)[seg].n - 1;
       vp::vclockAdvanceMs(ms);
       evTimeout(ms);
@@ -652,6 +657,7 @@ result_t World::onRead(unsigned int timeout) {
     } else {
       ch = alts[ex.choose((int)alts.size(), kinds.data())];
     }
+    if (ch.a != DEFAULT && ch.a != ENQ && ch.a != CHUNK && ch.a != SPLIT && ch.a != CHUNKHALF) devCount++;
 
     auto doTimeout = [&](int extra) {
       if (sc.unbounded && gapLeft > 0 && ch.a != DEFAULT) gapLeft--;  // A-mode: every deviation uses up one slot
@@ -703,7 +709,7 @@ result_t World::onRead(unsigned int timeout) {
         if (sc.unbounded && d.k == D_BYTE && active == nullptr && gapLeft > 0) gapLeft--;
         evIoError(false);
         tr->close();
-        if (active != nullptr) abortScript();
+        abortScript();
         echoQ.clear(); arbSlot = false; enhArmed = -1; lastSyn = false; pickResponder = false;
         return RESULT_ERR_DEVICE;
       case DEFAULT:
